@@ -64,7 +64,7 @@ def check(ctx):
     ctx.ob("R11-a", ei, "is_set() reads the underlying event", len(s) == 1, detail="" if s else "Event.is_set is not `return self._event.is_set()`", by=("is_set",))
     writer_table(ctx, "R11-a", "_event", {"Event.__init__": {"assign"}, "Event.set": {"call:set"}}, floor=2, modules=[A],
                  cls_filter=lambda fn: fn.cls == "Event")
-    clears = [n for rel, tree in ctx.repo.non_trio_modules().items() if rel.endswith(A) for n in ast.walk(tree)
+    clears = [n for rel, tree in ctx.repo.non_trio_modules().items() if rel.endswith(A) for n in ctx.live_walk(tree)
               if isinstance(n, ast.Call) and isinstance(n.func, ast.Attribute) and n.func.attr == "clear"
               and isinstance(n.func.value, ast.Attribute) and n.func.value.attr == "_event"]
     ctx.ob("R11-a", es, "a set event stays set (no clear())", not clears, detail="" if not clears else "the underlying event is cleared somewhere",
@@ -80,24 +80,21 @@ def check(ctx):
            by=("self._is_set",))
 
     # ================================================================ Condition
-    C = {k: ctx.fn(f"Condition.{k}", SYNC) for k in ("_check_acquired", "acquire", "acquire_nowait", "release", "notify", "notify_all", "wait",
+    C = {k: ctx.fn(f"Condition.{k}", SYNC) for k in ("acquire", "acquire_nowait", "release", "notify", "notify_all", "wait",
                                                       "__aenter__", "__aexit__", "wait_for")}
-    # ---- R11-b lock-holder checks
-    chk = C["_check_acquired"]
-    rs = ctx.sites(chk, "raise RuntimeError($*A)")
+    # ---- R11-b lock-holder checks (the guard helper is analysed inlined at its call sites, core.INLINE_ALWAYS: a maintainer writing
+    # the test out in notify/notify_all/wait changes nothing)
     own = [["self._owner_task == get_current_task()"], ["self._owner_task is get_current_task()"]]
-    if ctx.need("R11-b", chk, "`raise RuntimeError` for a non-holder", len(rs), 1):
-        ctx.require_at("R11-b", chk, rs[0][0], [["not self._owner_task == get_current_task()"], ["not self._owner_task is get_current_task()"]],
-                       instance="refused exactly when the caller is not the recorded owner")
+    OWN_KEYS = {F(d[0])[0] for d in own}
 
-    def at_exit_chk(kind, st, facts):
-        if kind == "return" and not any(F(d[0]) in facts for d in own):
-            return "_check_acquired returns normally without having established that the caller is the owner"
-        return None
+    def is_ownertest(frag, node):
+        return node.kind == "test" and atom(node.node)[0] in OWN_KEYS
 
-    ctx.paths("R11-b", chk, [], lambda st, e, c: st, 0, at_exit_chk, instance="_check_acquired passes only the owner")
     for nm in ("wait", "notify", "notify_all"):
         f = C[nm]
+        rs = [r_ for r_, _ in ctx.sites(f, "raise RuntimeError($*A)")]
+        guards = [r_ for r_ in rs if ctx.facts_at(f, r_) and all(any((k, False) in fa for k in OWN_KEYS) for fa in ctx.facts_at(f, r_))]
+        ctx.need("R11-b", f, f"`raise RuntimeError` for a non-holder in Condition.{nm}", len(guards), 1)
 
         def is_q(frag, node):
             if frag is None:
@@ -106,7 +103,7 @@ def check(ctx):
 
         def step_b(st, e, c, nm=nm):
             if e == "chk":
-                return True
+                return st or (not c.is_exc and any((k, True) in c.facts for k in OWN_KEYS))
             if e == "q" and not st:
                 return Bad(f"Condition.{nm} touches the waiter queue before checking that the caller holds the lock")
             return st
@@ -116,7 +113,7 @@ def check(ctx):
                 return f"Condition.{nm} completes without ever checking that the caller holds the lock"
             return None
 
-        ctx.paths("R11-b", f, [("chk", "self._check_acquired()"), ("q", [is_q])], step_b, False, at_exit_b, instance=f"{nm}: holder check first")
+        ctx.paths("R11-b", f, [("chk", [is_ownertest]), ("q", [is_q])], step_b, False, at_exit_b, instance=f"{nm}: holder check first")
 
     # ---- R11-c owner lifecycle
     writer_table(ctx, "R11-c", "_owner_task", {"Condition.__init__": {"assign"}, "Condition.acquire": {"assign"}, "Condition.acquire_nowait": {"assign"},
@@ -314,7 +311,7 @@ def check(ctx):
             return f"Condition.wait() returns without {sorted({'chkc', 'chk', 'reg', 'rel', 'wait', 'reacq'} - seen)}"
         return None
 
-    ctx.paths("R11-e", w, [("chkc", ["await checkpoint_if_cancelled()", "await $B.checkpoint_if_cancelled()"]), ("chk", "self._check_acquired()"),
+    ctx.paths("R11-e", w, [("chkc", ["await checkpoint_if_cancelled()", "await $B.checkpoint_if_cancelled()"]), ("chk", [lambda frag, node: node.kind == "test" and atom(node.node)[0] in OWN_KEYS]),
                            ("reg", f"self._waiters.append({ev})"), ("rel", "self.release()"), ("wait", f"await {ev}.wait()"),
                            ("rm", f"self._waiters.remove({ev})"), ("fwd", "self._waiters.popleft().set()"), ("reacq", "await self.acquire()"),
                            ("ftest", [lambda frag, node: node.kind == "test" and atom(node.node)[0] == setk[0]]),
